@@ -27,13 +27,13 @@ def mc_base():
     ev = [{'op': 'Start', 'tok': 1, 'rk': 3},
           {'op': 'Choose', 'k': 0},
           {'op': 'Eval', 'tok': 2, 'rk': 2, 'relT': [1], 'relR': [], 'relB': True, 'mbase': 0, 'mout': 0, 'lvl': 1, 'finite': True},
-          {'op': 'Judge', 'e0': 3, 'e1': 2, 'verdict': True, 'ucmp': 'none'},
+          {'op': 'Judge', 'e0': 3, 'e1': 2, 'verdict': True, 'ucmp': 'none', 'e0fresh': True},
           {'op': 'Choose', 'k': 1},
           {'op': 'Eval', 'tok': 3, 'rk': 4, 'relT': [], 'relR': [2], 'relB': True, 'mbase': 0, 'mout': 0, 'lvl': 2, 'finite': True},
-          {'op': 'Judge', 'e0': 2, 'e1': 4, 'verdict': False, 'ucmp': 'gt'},
+          {'op': 'Judge', 'e0': 2, 'e1': 4, 'verdict': False, 'ucmp': 'gt', 'e0fresh': True},
           {'op': 'Choose', 'k': 0},
           {'op': 'Eval', 'tok': 4, 'rk': 2, 'relT': [2], 'relR': [], 'relB': True, 'mbase': 0, 'mout': 0, 'lvl': 1, 'finite': True},
-          {'op': 'Judge', 'e0': 2, 'e1': 2, 'verdict': True, 'ucmp': 'none'},
+          {'op': 'Judge', 'e0': 2, 'e1': 2, 'verdict': True, 'ucmp': 'none', 'e0fresh': True},
           {'op': 'Return', 'tok': 4}]
     return {'cfg': {'nSteps': 2, 'types': [0, 1], 'tree': True}, 'ev': ev}
 
@@ -48,6 +48,8 @@ def cases_montecarlo():
     b = mc_base()
     out = [('ok', b, None)]
     out.append(('judged against the minimum', mutate(b, lambda t: t['ev'][9].update(e0=3)), 'judged_against_held_measure'))
+    out.append(('held measure drifted from the held configuration', mutate(b, lambda t: t['ev'][6].update(e0fresh=False)),
+                'held_measure_is_the_measure_of_the_held_configuration'))
     out.append(('returns a rejected configuration', mutate(b, lambda t: t['ev'][10].update(tok=3)), 'returns_last_accepted_configuration'))
     out.append(('proposal from a stale configuration', mutate(b, lambda t: t['ev'][8].update(relT=[1])), 'proposal_is_move_of_held_configuration'))
     out.append(('kind not enabled', mutate(b, lambda t: t['ev'][4].update(k=2)), 'kind_enabled'))
